@@ -94,3 +94,42 @@ package store
 //@   ensures CHInv(s) && s.count >= old(s.count) && s.maxNumBins == old(s.maxNumBins)
 //@   ensures alias: arr(s.bins) == old(arr(s.bins)) || fresh(arr(s.bins))
 //@   modifies *r, s, arr(s.bins)
+
+// ---------------------------------------------------------------- binary encoding of bins
+// Encoding only appends to the caller's buffer and leaves the content of the store unchanged (the paginated store
+// may reorganise itself). What the appended bytes denote is exercised by the bounded stand-in encode-roundtrip.
+//@ func Store.Encode
+//@   serves C06 C14 C07
+//@   requires SInv(this) && b != nil
+//@   ensures append-only: enc.PrefixKept(b)
+//@   ensures pure: SInv(this) && STot(this) == old(STot(this)) && (forall k int :: SView(this, k) == old(SView(this, k)))
+//@   ensures stable: footprintStable(this) && SConf(this) == old(SConf(this))
+//@   modifies *b, arr(*b), footprint(this)
+
+//@ func DenseStore.Encode
+//@   serves C06 C14 C07
+//@   requires DCore(s) && b != nil && (s.count > 0.0 ==> s.minIndex <= s.maxIndex)
+//@   ensures append-only: enc.PrefixKept(b)
+//@   loop 1 invariant s.minIndex <= index && b != nil && enc.PrefixKept(b)
+//@   modifies *b, arr(*b)
+
+//@ func DenseStore.encodeDensely
+//@   serves C06 C07
+//@   requires DCore(s) && b != nil && s.minIndex <= s.maxIndex
+//@   ensures append-only: enc.PrefixKept(b)
+//@   loop 1 invariant s.minIndex <= index && b != nil && enc.PrefixKept(b)
+//@   modifies *b, arr(*b)
+
+//@ func DenseStore.encodeSparsely
+//@   serves C06 C07
+//@   requires DCore(s) && b != nil && s.minIndex <= s.maxIndex
+//@   ensures append-only: enc.PrefixKept(b)
+//@   loop 1 invariant s.minIndex <= index && b != nil && enc.PrefixKept(b)
+//@   modifies *b, arr(*b)
+
+//@ func SparseStore.Encode
+//@   serves C06 C14 C07
+//@   requires MInv(s) && b != nil
+//@   ensures append-only: enc.PrefixKept(b)
+//@   loop 1 invariant b != nil && enc.PrefixKept(b)
+//@   modifies *b, arr(*b)
